@@ -485,14 +485,20 @@ class Exec:
             v = self.eval_place(fr, p[1]).get()
             if isinstance(v, (Ptr, SeqElemPtr)):
                 return v
-            if isinstance(v, Struct) and v.name == "Box":
-                return v.f[0]
+            while isinstance(v, Struct) and v.name in ("Box", "Unique", "NonNull") and v.f:
+                v = v.f[0]
+            if isinstance(v, (Ptr, SeqElemPtr)):
+                return v
             raise Unsupported(f"deref of {v!r}")
         if k == "field":
             loc = self.eval_place(fr, p[1])
             obj = loc.get()
             if isinstance(obj, Transparent):
-                return Ptr(obj.f, 0)
+                return Ptr(obj.f, 0, meta="transparent")
+            if loc.meta == "transparent" and (obj is None or isinstance(p[3], str) and re.search(r"ManuallyDrop|MaybeDangling|MaybeUninit", fr.fn.locals.get(0, "") + p[3]) and not isinstance(obj, (Struct, Enum))):
+                return loc
+            if loc.meta == "transparent" and obj is None:
+                return loc
             if isinstance(obj, (Struct, Enum)):
                 if "ScriptBit" in p[3] and isinstance(obj, Struct) and obj.name == "Script":
                     raise Unsupported("direct access to Script internals (Script is opaque in E2)")
